@@ -161,6 +161,9 @@ pub fn run(t: &[&str]) -> String {
     let anyprog = kv.get("anyprog").is_some();
     let force: Vec<String> = kv.get("force").map(|s| s.split(',').map(|x| x.to_string()).collect()).unwrap_or_default();
     let engines: Vec<String> = kv.get("engines").map(|s| s.split(',').filter(|x| !x.is_empty() && *x != "-").map(|x| x.to_string()).collect()).unwrap_or_default();
+    // `again=L`: every execution (interpreter, each engine) is followed by a second one on the same VM and the same buffer with the
+    // packet cut to its first L bytes (C09: successive executions with different packets)
+    let again: Option<usize> = kv.get("again").and_then(|s| s.parse().ok());
     let fixoff: (usize, usize) = kv.get("fixoff").and_then(|s| s.split_once(':')).map(|(a, b)| (a.parse().unwrap_or(0), b.parse().unwrap_or(8))).unwrap_or((0, 8));
     let extrabase: Vec<u64> = c.extra.iter().map(|e| e.as_ptr() as u64).collect();
     // one pristine copy of the buffers per run (interpreter, then each engine)
@@ -224,6 +227,18 @@ pub fn run(t: &[&str]) -> String {
         let (nlog, logd) = log_digest();
         let (mview, bview): (&[u8], &[u8]) = unsafe { (std::slice::from_raw_parts(mem_ptr, mem_len), std::slice::from_raw_parts(mbuff_ptr, mbuff_len)) };
         let first = format!("{} mem={:016x} mbuff={:016x} LOG={}:{:016x}", out, fnv(mview), fnv(bview), nlog, logd);
+        if let Some(l2) = again { if !anyprog && l2 <= mem_len {
+            rbpf::verif::set_insn_budget(cref.budget);
+            let memr2: &mut [u8] = unsafe { std::slice::from_raw_parts_mut(mem_ptr, l2) };
+            let r2 = match &mut vm {
+                Vm::Mbuff(v) => v.execute_program(memr2, mbuffr),
+                Vm::Raw(v) => v.execute_program(memr2),
+                Vm::NoData(v) => v.execute_program(),
+                Vm::Fixed(v) => v.execute_program(memr2),
+            };
+            rbpf::verif::set_insn_budget(0);
+            engine_out_ref.push(format!("again={}", match r2 { Ok(v) => format!("ok:r0={:016x}", v), Err(e) => { let cl = err_class(&e.to_string()); if cl == "budget" { "budget".to_string() } else { format!("err:{}", cl) } } }));
+        } }
         // engines, each on pristine buffers
         for e in &engines {
             let mut m2 = mem0.clone(); let mut b2 = mbuff0.clone();
@@ -254,24 +269,41 @@ pub fn run(t: &[&str]) -> String {
                 if let Some((p1, buf)) = sz { engine_out_ref.push(format!("jitsizing={}.{}", p1, buf)); } }
             if (!interp_ok && !force.contains(e)) || norun { engine_out_ref.push(format!("{}=compiled{}", e, code_info)); continue; }   // outside the claim: never run unchecked code
             // run the generated code in a forked child: a fault, trap or endless loop must not take the harness down
-            let vmref = &mut vm;
-            let res = forked(move || {
-                let vm = vmref;
+            // `second`: execute twice (full packet, then the packet cut to `again` bytes) and report the second execution only.  Each
+            // child starts from the parent's VM, which never runs compiled code itself.
+            let mut run_child = |vm: &mut Vm, second: Option<usize>| -> String { let e = e.clone(); forked(move || {
                 let m2r: &mut [u8] = unsafe { std::slice::from_raw_parts_mut(m2p, m2l) };
                 let b2r: &mut [u8] = unsafe { std::slice::from_raw_parts_mut(b2p, b2l) };
                 unsafe { let it = libc::itimerval { it_interval: libc::timeval { tv_sec: 0, tv_usec: 0 }, it_value: libc::timeval { tv_sec: 0, tv_usec: 400_000 } }; libc::setitimer(libc::ITIMER_REAL, &it, std::ptr::null_mut()); }
-                let r = unsafe { match (e.as_str(), vm) {
+                let r = unsafe { match (e.as_str(), &mut *vm) {
                     ("jit", Vm::Mbuff(v)) => v.execute_program_jit(m2r, b2r), ("jit", Vm::Raw(v)) => v.execute_program_jit(m2r), ("jit", Vm::NoData(v)) => v.execute_program_jit(), ("jit", Vm::Fixed(v)) => v.execute_program_jit(m2r),
                     ("clif", Vm::Mbuff(v)) => v.execute_program_cranelift(m2r, b2r), ("clif", Vm::Raw(v)) => v.execute_program_cranelift(m2r), ("clif", Vm::NoData(v)) => v.execute_program_cranelift(), ("clif", Vm::Fixed(v)) => v.execute_program_cranelift(m2r),
                     _ => unreachable!(),
                 } };
                 unsafe { let it = libc::itimerval { it_interval: libc::timeval { tv_sec: 0, tv_usec: 0 }, it_value: libc::timeval { tv_sec: 0, tv_usec: 0 } }; libc::setitimer(libc::ITIMER_REAL, &it, std::ptr::null_mut()); }
-                let (nlog, logd) = log_digest();
-                let al = unsafe { ALIGN_SLOT };
-                let (mview, bview): (&[u8], &[u8]) = unsafe { (std::slice::from_raw_parts(m2p, m2l), std::slice::from_raw_parts(b2p, b2l)) };
-                match r { Ok(v) => format!("ok:r0={:016x}:mem={:016x}:mbuff={:016x}:LOG={}:{:016x}:align={:x}", v, fnv(mview), fnv(bview), nlog, logd, al), Err(_) => "err".to_string() }
-            });
+                match second {
+                    None => {
+                        let (nlog, logd) = log_digest();
+                        let al = unsafe { ALIGN_SLOT };
+                        let (mview, bview): (&[u8], &[u8]) = unsafe { (std::slice::from_raw_parts(m2p, m2l), std::slice::from_raw_parts(b2p, b2l)) };
+                        match r { Ok(v) => format!("ok:r0={:016x}:mem={:016x}:mbuff={:016x}:LOG={}:{:016x}:align={:x}", v, fnv(mview), fnv(bview), nlog, logd, al), Err(_) => "err".to_string() }
+                    }
+                    Some(l2) => {
+                        let m3r: &mut [u8] = unsafe { std::slice::from_raw_parts_mut(m2p, l2) };
+                        unsafe { let it = libc::itimerval { it_interval: libc::timeval { tv_sec: 0, tv_usec: 0 }, it_value: libc::timeval { tv_sec: 0, tv_usec: 400_000 } }; libc::setitimer(libc::ITIMER_REAL, &it, std::ptr::null_mut()); }
+                        let r2 = unsafe { match (e.as_str(), &mut *vm) {
+                            ("jit", Vm::Mbuff(v)) => v.execute_program_jit(m3r, b2r), ("jit", Vm::Raw(v)) => v.execute_program_jit(m3r), ("jit", Vm::NoData(v)) => v.execute_program_jit(), ("jit", Vm::Fixed(v)) => v.execute_program_jit(m3r),
+                            ("clif", Vm::Mbuff(v)) => v.execute_program_cranelift(m3r, b2r), ("clif", Vm::Raw(v)) => v.execute_program_cranelift(m3r), ("clif", Vm::NoData(v)) => v.execute_program_cranelift(), ("clif", Vm::Fixed(v)) => v.execute_program_cranelift(m3r),
+                            _ => unreachable!(),
+                        } };
+                        unsafe { let it = libc::itimerval { it_interval: libc::timeval { tv_sec: 0, tv_usec: 0 }, it_value: libc::timeval { tv_sec: 0, tv_usec: 0 } }; libc::setitimer(libc::ITIMER_REAL, &it, std::ptr::null_mut()); }
+                        match r2 { Ok(v) => format!("ok:r0={:016x}", v), Err(_) => "err".to_string() }
+                    }
+                }
+            }) };
+            let res = run_child(&mut vm, None);
             engine_out_ref.push(format!("{}={}{}", e, res, if res.starts_with("ok") { String::new() } else { code_info.clone() }));
+            if let Some(l2) = again { if l2 <= m2l && res.starts_with("ok") { let r2 = run_child(&mut vm, Some(l2)); engine_out_ref.push(format!("{}2={}", e, r2)); } }
         }
         Ok(first)
     }));
@@ -727,7 +759,8 @@ pub fn gen_engines(w: &mut impl Write, thorough: bool, seed: u64) {
         if kind != "fixed" && (d, e) != (0, 8) { continue; }
         if kind != "mbuff" && mbl != 0 { continue; }
         let mem = pattern(mem_len, 21); let mb = pattern(mbl, 22);
-        let tail = format!("mem={} mbuff={} budget=300 engines=jit,clif kind={} fixoff={}:{}", hex(&mem), hex(&mb), kind, d, e);
+        let tail = format!("mem={} mbuff={} budget=300 engines=jit,clif kind={} fixoff={}:{}{}", hex(&mem), hex(&mb), kind, d, e,
+            if mem_len >= 2 && kind != "nodata" { format!(" again={}", mem_len / 2) } else { String::new() });
         // probe A: r0 = (r1 != 0)  and stack top is writable at r10-8 .. r10-512 but r10 itself is one past the end
         let mut p = vec![]; p.extend(ins(0xb7, 0, 0, 0, 0)); p.extend(ins(0x15, 1, 0, 1, 0)); p.extend(ins(0xb7, 0, 0, 0, 1));
         p.extend(ins(0x7a, 10, 0, -8, 0x11)); p.extend(ins(0x7a, 10, 0, -512, 0x22)); p.extend(ins(0x79, 2, 10, -8, 0)); p.extend(ins(0x79, 3, 10, -512, 0));
